@@ -613,3 +613,116 @@ def rule_release_nonnull(ctx, rep, config="c-lib"):
                 rep.violation("T4-nonnull", key, "the caller's parse_free is called with `%s', which %s sets to NULL (%s) during the same API call, without a test: parse_free "
                               "receives NULL, which parse_alloc never returned" % (fld, culprit[0].name, culprit[1].where()), where=i.where(), witness=[culprit[1].where(), i.where()])
     rep.floor("T4-nonnull", "release sites", n, 7)
+
+
+def _collect_sites(f):
+    """[(instruction, alloca id of the variable whose value is appended to tnodes_vlo)]"""
+    out = []
+    for i in f.calls():
+        src = None
+        if (i.callee or "").startswith("llvm.memcpy"):
+            lp = loaded_from(f, i.args[0])
+            if lp is not None and lp.root == ("g", "tnodes_vlo") and (lp.last_field() or "").endswith("vlo_free"):
+                src = i.args[1]
+        elif i.d.get("srcname") == "add_memory" or "add_memory" in (i.callee or ""):
+            lp = loaded_from(f, i.args[0])
+            if lp is not None and lp.root == ("g", "tnodes_vlo") and not lp.steps:
+                src = i.args[1]
+        if src is not None:
+            pa = resolve_addr(f, src)
+            if pa.root[0] == "alloca" and not [st for st in pa.steps if st[0] != "cast"]:
+                out.append((i, pa.root[1]))
+    return out
+
+
+def rule_collect(ctx, rep, config="c-lib"):
+    rep.rule("R13-collect", "prune_to_minimal records every node it works on in the list of candidates for release (tnodes_vlo) before it rewrites the node -- marks its "
+                            "cost, replaces a child or an alternative, relinks the alternative list: each store through a node variable is dominated by the parse_free "
+                            "test that guards an append of that variable; the leaf kinds are appended on their case.  Nodes that are dropped later can only be "
+                            "released if they are in that list")
+    p = ctx.prog(config)
+    f = p.fn("prune_to_minimal")
+    rep.cover(p, [f.name])
+    sites = _collect_sites(f)
+    if len(sites) < 3:
+        raise AnalysisBroken("R13-collect: %d appends to tnodes_vlo recognised in prune_to_minimal (3 confirmed by reading)" % len(sites))
+    # guard block of each append: the nearest dominating branch on parse_free != NULL
+    guards = {}
+    for (i, var) in sites:
+        for (c, pol) in _controlling_conditions(f, i.block.name):
+            lp = loaded_from(f, c.ops[0])
+            if lp is not None and lp.root == ("g", "parse_free") and strip_casts(f, c.ops[1]).get("k") == "null" and (c.d["pred"] == "ne") == pol:
+                guards.setdefault(var, []).append(c)
+                break
+        else:
+            guards.setdefault(var, []).append(i)     # unguarded append
+    n = 0
+    for s in f.all_insts():
+        if s.op != "store":
+            continue
+        pa = resolve_addr(f, s.ops[1])
+        if pa.root[0] != "val" or not pa.fields():
+            continue
+        fld = pa.last_field() or ""
+        if "yaep_tree_node" not in "".join(st[1] for st in pa.steps if st[0] == "f") and not fld.startswith(("yaep_anode.", "yaep_alt.")):
+            continue
+        holder = f.inst(strip_casts(f, pa.root[1]))
+        if holder is None or holder.op != "load":
+            continue
+        hp = resolve_addr(f, holder.ops[0])
+        if hp.root[0] != "alloca" or hp.steps:
+            continue
+        var = hp.root[1]
+        n += 1
+        vname = (f.insts[var].d.get("var") if var in f.insts else None) or "?"
+        key = "prune_to_minimal/%s.%s#%d" % (vname, fld.split(".")[-1], n)
+        gs = guards.get(var, [])
+        if any(f.inst_dominates(g, s) for g in gs):
+            rep.ok("R13-collect", key, sample={"store": s.where()})
+        else:
+            rep.violation("R13-collect", key, "prune_to_minimal rewrites `%s->%s' of a node that is not (yet) in the list of release candidates on this path: if the node is "
+                          "dropped later -- a cheaper alternative follows -- nobody releases it (a parse_alloc block stays unreleased)" % (vname, fld.split(".")[-1]),
+                          where=s.where(), witness=[s.where()] + [g.where() for g in gs][:3])
+    rep.floor("R13-collect", "stores through node variables in prune_to_minimal", n, 5)
+
+
+def rule_compaction(ctx, rep, config="c-lib"):
+    rep.rule("R11-move", "free_tree_reduce compacts the child array by moving pointers: a child copied into another slot of the same array is cleared in its old slot "
+                         "(a copy that stays makes yaep_free_tree release the child and its subtree twice)")
+    p = ctx.prog(config)
+    f = p.fn("free_tree_reduce")
+    rep.cover(p, [f.name])
+    from .. import expr as _e
+    n = 0
+    for s in f.all_insts():
+        if s.op != "store":
+            continue
+        pa = resolve_addr(f, s.ops[1])
+        if pa.root[0] != "val" or not pa.steps or pa.steps[-1][0] not in ("idx", "ptr"):
+            continue
+        base = loaded_from(f, pa.root[1])
+        if base is None or base.last_field() != "yaep_anode.children":
+            continue
+        v = f.inst(strip_casts(f, s.ops[0]))
+        if v is None or v.op != "load":
+            continue
+        vp = resolve_addr(f, v.ops[0])
+        vb = loaded_from(f, vp.root[1]) if vp.root[0] == "val" else None
+        if vb is None or vb.last_field() != "yaep_anode.children" or not vp.steps or vp.steps[-1][0] not in ("idx", "ptr"):
+            continue
+        n += 1
+        src_ix = _e.lin(f, vp.steps[-1][1], 0, 1)
+        cleared = False
+        for z in f.all_insts():
+            if z.op == "store" and strip_casts(f, z.ops[0]).get("k") == "null" and f.inst_postdominates(z, s) and f.inst_dominates(s, z):
+                zp = resolve_addr(f, z.ops[1])
+                zb = loaded_from(f, zp.root[1]) if zp.root[0] == "val" else None
+                if zb is not None and zb.last_field() == "yaep_anode.children" and zp.steps and zp.steps[-1][0] in ("idx", "ptr") and _e.lin(f, zp.steps[-1][1], 0, 1) == src_ix:
+                    cleared = True
+        key = "free_tree_reduce/child-move#%d" % n
+        if cleared:
+            rep.ok("R11-move", key, sample={"copy": s.where()})
+        else:
+            rep.violation("R11-move", key, "a child pointer is copied to another slot and stays in its old slot too: after the reduction the node has the child twice, "
+                          "free_tree_sweep releases it (and calls the terminal callback for its TERM nodes) twice", where=s.where(), witness=[s.where()])
+    rep.floor("R11-move", "child moves in free_tree_reduce", n, 1)
